@@ -6,7 +6,7 @@
    given the received activity unchanged and exactly the members of the collections the filter returned, once. *)
 From Coq Require Import String List Bool Arith.
 From Verif Require Import Base.ListX Base.Json Base.Free Pub.Events Pub.Calls Pub.Value Pub.Util Pub.SideEffect Pub.Monitors.
-From Verif Require Import Proofs.OrderProofs Proofs.ForwardProofs Proofs.DeliveryProofs.
+From Verif Require Import Pub.ForwardSpec Proofs.OrderProofs Proofs.ForwardProofs Proofs.DeliveryProofs Proofs.ForwardIffProofs.
 Import ListNotations.
 Open Scope string_scope.
 Open Scope list_scope.
@@ -31,6 +31,50 @@ Proof. intros a tr s H. destruct (fwd_once a tr f0 s H) as [H1 H2]. simpl in H1,
 (* the recursion of the value search consumes the depth: with no depth left nothing is owned *)
 Theorem C17_depth : forall box v, has_forwarding_values 0 box v = ok false.
 Proof. reflexivity. Qed.
+
+(* ---- "if and only if": as a function of the world (Pub/ForwardSpec.v: what the server owns, what each IRI dereferences to,
+   what is stored, whether the activity was seen, the depth limit) ----
+   Reach w depth a: some value at most depth-1 levels below a (through inReplyTo / object / target / tag, embedded or
+   dereferenced) names something this server owns.  The value search of the model, run against ANY environment that answers
+   as the world does, answers true exactly then (whenever it answers at all: an undecodable document or an embedded value
+   without id fails the request). *)
+Theorem C17_search : forall w env,
+  (forall i, env (ELock i) = AOk) -> (forall i, env (EDb "Owns" [JStr i]) = ABool (fw_owns w i)) ->
+  (forall b, env (ENewTransport b) = AOk) -> (forall u, env (EDeref u) = deref_answer (fw_deref w u)) ->
+  forall depth box v b, fst (run_env env (has_forwarding_values depth box v)) = Ok b -> (b = true <-> Reach w depth v).
+Proof.
+  intros w env H1 H2 H3 H4 depth box v b H. rewrite (res_has_values w env H1 H2 H3 H4 depth box v b H). apply reach_b_spec.
+Qed.
+
+(* must_forward w a: not seen, an owned Collection / OrderedCollection among to / cc / audience, an owned value within the depth *)
+Theorem C17_must_forward_meaning : forall w a, must_forward w a = true <->
+  fw_seen w = false /\
+  exists l, addressed a = Ok l /\
+            (exists c, In c l /\ fw_owns w c = true /\ is_collection_value (fw_get w c) = true) /\
+            Reach w (effective_depth w) a.
+Proof. exact must_forward_spec. Qed.
+
+(* InboxForwarding, for every world and every environment answering as that world does: whenever it succeeds, the received
+   activity was handed to the transport exactly once if must_forward, and not at all otherwise *)
+Theorem C17_iff : forall w env,
+  (forall i, env (ELock i) = AOk) -> (forall i, env (EDb "Owns" [JStr i]) = ABool (fw_owns w i)) ->
+  (forall b, env (ENewTransport b) = AOk) -> (forall u, env (EDeref u) = deref_answer (fw_deref w u)) ->
+  (forall i, env (EDb "Exists" [JStr i]) = ABool (fw_seen w)) -> (forall x, env (EDb "Create" [x]) = AOk) ->
+  (forall i, env (EDb "Get" [JStr i]) = AJson (fw_get w i)) ->
+  env (EApp "MaxInboxForwardingRecursionDepth" []) = ANat (fw_depth w) ->
+  (forall args, env (EApp "FilterForwarding" args) = AIris (fw_filter w args)) ->
+  (forall p r, env (EBatchDeliver p r) = AOk) ->
+  forall inbox a, fst (run_env env (inbox_forwarding inbox a)) = Ok tt ->
+  if must_forward w a
+  then exists rcpts, batches (snd (run_env env (inbox_forwarding inbox a))) = [EBatchDeliver (canon (streams_serialize a)) rcpts]
+  else batches (snd (run_env env (inbox_forwarding inbox a))) = [].
+Proof. intros w env H1 H2 H3 H4 H5 H6 H7 H8 H9 H10. exact (forwarding_iff w env H1 H2 H3 H4 H5 H6 H7 H8 H9 H10). Qed.
+
+Theorem C17_iff_world : forall w inbox a, fst (run_env (env_of w) (inbox_forwarding inbox a)) = Ok tt ->
+  if must_forward w a
+  then exists rcpts, batches (snd (run_env (env_of w) (inbox_forwarding inbox a))) = [EBatchDeliver (canon (streams_serialize a)) rcpts]
+  else batches (snd (run_env (env_of w) (inbox_forwarding inbox a))) = [].
+Proof. exact forwarding_iff_world. Qed.
 
 (* REFUTED part of the statement ("forwarded to the inboxes of the members"): the transport is handed the member ids
    themselves.  Witness: an owned collection whose one member is an actor with its own inbox; the model (which replays the
@@ -57,6 +101,22 @@ Theorem C17_inboxes_refuted :
   fst (run_env rf_env (inbox_forwarding "https://example.com/users/alice/inbox" rf_activity)) = Ok tt.
 Proof. vm_compute. split; reflexivity. Qed.
 
+(* the hypotheses of C17_iff are met, with and without forwarding *)
+Definition ex_world (seen : bool) (depth : nat) : fworld :=
+  {| fw_owns := fun i => String.eqb i rf_col || String.eqb i rf_note;
+     fw_deref := fun _ => DFailed;
+     fw_get := fun _ => JObj [("type", JStr "Collection"); ("id", JStr rf_col); ("items", JStr rf_member)];
+     fw_seen := seen; fw_depth := depth; fw_filter := fun _ => [rf_col] |}.
+Example C17_iff_not_vacuous :
+  must_forward (ex_world false 2) rf_activity = true /\ must_forward (ex_world true 2) rf_activity = false /\
+  fst (run_env (env_of (ex_world false 2)) (inbox_forwarding "https://example.com/users/alice/inbox" rf_activity)) = Ok tt /\
+  batch_recipients (snd (run_env (env_of (ex_world false 2)) (inbox_forwarding "https://example.com/users/alice/inbox" rf_activity))) = [[rf_member]].
+Proof. vm_compute. repeat split; reflexivity. Qed.
+
+Print Assumptions C17_search.
+Print Assumptions C17_must_forward_meaning.
+Print Assumptions C17_iff.
+Print Assumptions C17_iff_world.
 Print Assumptions C17_inbox_forwarding.
 Print Assumptions C17_inboxes_refuted.
 Print Assumptions C17_only_if.
